@@ -253,11 +253,28 @@ func (m *PluginManager) Install(ctx context.Context, name string, constraint *se
 		return fmt.Errorf("couldn't remove plugin archive: %w", err)
 	}
 
-	if err := os.RemoveAll(newPluginDir); err != nil {
-		return fmt.Errorf("couldn't remove old plugin directory: %w", err)
+	// A previously installed copy of this version is moved out of the way (under a name the directory readers skip)
+	// and only deleted after the new copy is in place, so that an interruption never leaves a half deleted version.
+	oldPluginDir := stagingDir + "-old"
+	hadOldPluginDir := true
+	if err := os.Rename(newPluginDir, oldPluginDir); err != nil {
+		if !os.IsNotExist(err) {
+			return fmt.Errorf("couldn't move old plugin directory out of the way: %w", err)
+		}
+		hadOldPluginDir = false
 	}
 	if err := os.Rename(stagingDir, newPluginDir); err != nil {
+		if hadOldPluginDir {
+			if restoreErr := os.Rename(oldPluginDir, newPluginDir); restoreErr != nil {
+				return fmt.Errorf("couldn't move installed plugin into place: %w (and couldn't restore the old plugin directory: %s)", err, restoreErr)
+			}
+		}
 		return fmt.Errorf("couldn't move installed plugin into place: %w", err)
+	}
+	if hadOldPluginDir {
+		if err := os.RemoveAll(oldPluginDir); err != nil {
+			return fmt.Errorf("couldn't remove old plugin directory: %w", err)
+		}
 	}
 
 	if err := registerFileExtensions(plugin.Name, plugin.FileExtensions); err != nil {
